@@ -141,12 +141,26 @@ pub fn uninstall() {
 }
 
 fn creation_lookup(path: &Path) -> Option<DateTime<Local>> {
-    let g = lock_ctl();
-    let c = g.as_ref()?;
+    let mut g = lock_ctl();
+    let c = g.as_mut()?;
     if !c.use_creation_table {
         return None;
     }
-    c.creation.get(path).map(|ns| local_from_ns(*ns))
+    if let Some(ns) = c.creation.get(path) {
+        return Some(local_from_ns(*ns));
+    }
+    // a rename that was announced at its hook point and then failed inside the system call (a real
+    // fault, or one injected by strace): the file is still where it was
+    if let Some((src, dst)) = c.last_rename.clone() {
+        if src == path && path.exists() {
+            if let Some(t) = c.creation.remove(&dst) {
+                c.creation.insert(src, t);
+                c.last_rename = None;
+                return Some(local_from_ns(t));
+            }
+        }
+    }
+    None
 }
 
 pub fn creation_register(path: &Path, ns: i64) {
